@@ -389,7 +389,7 @@ def pub_portion_len(body):
 
 # ------------------------------------------------------------------ transferable keys from foreign material
 def transferable_key(primary, uids, subkeys=(), secret=False, hname='sha256', created=None, flags=0x03, extra_hashed=(),
-                     fmt='new', trust_packets=False):
+                     fmt='new', trust_packets=False, uid_unhashed=()):
     """primary: ForeignKey; uids: list of bytes; subkeys: list of (ForeignKey, flags).
     Returns octets of a transferable public (or secret, usage 0) key with self-certifications and bindings."""
     created = created if created is not None else primary.created + 1
@@ -403,7 +403,7 @@ def transferable_key(primary, uids, subkeys=(), secret=False, hname='sha256', cr
         if n == 0:
             hashed.append(subpacket(25, b'\x01'))
         hashed.append(subpacket(33, b'\x04' + primary.fingerprint))
-        sp, _ = sig_packet(primary, 0x13, hname, hashed, [], subject_octets(0x13, primary=primary.pub_body, uid=u), created=created + n, fmt=fmt)
+        sp, _ = sig_packet(primary, 0x13, hname, hashed, list(uid_unhashed), subject_octets(0x13, primary=primary.pub_body, uid=u), created=created + n, fmt=fmt)
         out += sp + trust
     for n, entry in enumerate(subkeys):
         # (key, hashed flags) or (key, hashed flags or None for "no key-flags subpacket", flags planted in the UNHASHED area)
